@@ -27,7 +27,7 @@ class C15Check(ExplainerCheck):
         else:
             focus = "sage" if stratum in (2, 3) else "pfi"
             plan = gen_explainer_plan(rng, self.prop, focus, names_kind=nk,
-                                      long=(tier == "thorough" and run_index % 50 == 27))
+                                      long=(run_index % 50 == 27 if tier == "thorough" else run_index % 100 == 27))
             cfg = plan["config"]
         # documented-required-arguments-only stratum: strip every optional constructor argument
         if (run_index // 24) % 3 == 0:
@@ -76,7 +76,7 @@ class C16Check(ExplainerCheck):
             cfg["model"].pop("labels", None)
             cfg["loss"]["family"] = "lin"
         ops = gen_schedule(rng, cfg, mix=[("explain", 62), ("learn", 8), ("store", 6), ("observe", 24)],
-                           T=rng.randint(100, 300) if (tier == "thorough" and run_index % 40 == 13 and arith != "exact") else None)
+                           T=rng.randint(100, 300) if (run_index % (40 if tier == "thorough" else 80) == 13 and arith != "exact") else None)
         strip_private(cfg)
         return {"property": self.prop, "kind": "explainer", "config": cfg, "ops": ops, "rs0": rng.getrandbits(48)}
 
